@@ -78,6 +78,9 @@ fn case01(base: Option<&str>, input: &str) -> String {
 
 impl Ctx {
     fn compare(&mut self, stream: &str, ovr: u32, base: Option<&Url>, input: &str) {
+        if self.search && self.rep.failures.len() >= 5 {
+            return;
+        }
         let bt = match base {
             Some(b) => url_token(b),
             None => "~".to_string(),
@@ -295,6 +298,9 @@ fn known_c01(base: Option<&Url>, input: &str) -> Option<&'static str> {
 }
 
 fn spec_vs_impl(cx: &mut Ctx, stream: &str, base: Option<(&str, &Url)>, input: &str) {
+    if cx.search && cx.rep.failures.len() >= 5 {
+        return;
+    }
     let drv2 = match cx.spec.as_mut() {
         Some(d) => d,
         None => return,
@@ -410,8 +416,7 @@ fn run_known(_args: &Args) -> Report {
 
 fn run_replay(args: &Args) -> Report {
     let mut cx = new_ctx(args, true);
-    let txt = std::fs::read_to_string(&args.file).unwrap_or_default();
-    let req = txt.split("\"request\":").nth(1).and_then(|s| s.split('"').nth(1)).unwrap_or("").to_string();
+    let req = replay_request(&args.file);
     let w: Vec<&str> = req.split(' ').collect();
     if w.len() != 3 || w[0] != "parse01" {
         cx.rep.notes.push("replay file has no parse01 request (no-failing-input-found replay): nothing to re-run".into());
